@@ -18,6 +18,11 @@ import (
 func (c *Ctx) ListsAsGiven(prop string) {
 	rule := "C18.O8 config.lists-as-given"
 	n := 0
+	type found struct {
+		key, fn, pos, term    string
+		given, deflt, fromArg bool
+	}
+	var all []found
 	for _, fn := range c.P.ModuleFuncs() {
 		p := prog.PkgPathOf(fn)
 		if prog.IsTestish(p) || fn.Blocks == nil {
@@ -45,7 +50,16 @@ func (c *Ctx) ListsAsGiven(prop string) {
 				n++
 				key := owner.Obj().Pkg().Path()[len(mod)+1:] + ".parameters." + fieldNameOf(fa)
 				v := st.Val
+				// a conversion between a named list type and its underlying type is the same list
+				for {
+					if ct, isCT := v.(*ssa.ChangeType); isCT {
+						v = ct.X
+						continue
+					}
+					break
+				}
 				okVal := false
+				isDefault := false
 				switch x := v.(type) {
 				case *ssa.Parameter, *ssa.FreeVar:
 					okVal = true
@@ -102,12 +116,50 @@ func (c *Ctx) ListsAsGiven(prop string) {
 						okVal = true
 					}
 				}
-				if okVal {
-					c.R.OK(rule, key+"@"+Fn(fn), c.Pos(st), "assigned the option's own argument (or a literal default)")
-				} else {
-					c.R.Fail(rule, key+"@"+Fn(fn), c.Pos(st), "a configured list is replaced by a computed one ("+an.Term(v)+") before the service sees it: entries can be dropped, merged or reordered without any error", "parameters.<list> = the option's argument, as given", nil)
+				switch v.(type) {
+				case *ssa.Const, *ssa.MakeSlice, *ssa.MakeMap:
+					isDefault = true
 				}
+				// a value cut out of the option's argument marks the field as configured too (and is not as-given)
+				fromArg := false
+				if sl, isSl := v.(*ssa.Slice); isSl && !okVal {
+					w := sl.X
+					for {
+						if s2, ok := w.(*ssa.Slice); ok {
+							w = s2.X
+							continue
+						}
+						break
+					}
+					switch y := w.(type) {
+					case *ssa.Parameter, *ssa.FreeVar:
+						fromArg = true
+					case *ssa.UnOp:
+						if _, isFV := y.X.(*ssa.FreeVar); isFV {
+							fromArg = true
+						}
+					}
+				}
+				all = append(all, found{key: key, fn: Fn(fn), pos: c.Pos(st), term: an.Term(st.Val), given: okVal && !isDefault, deflt: isDefault, fromArg: fromArg})
 			}
+		}
+	}
+	// a field is a configured list when some option assigns it its own argument; only those are judged (fields the
+	// constructor derives from the configuration - compiled patterns, indexes - are computed by design)
+	configured := map[string]bool{}
+	for _, f := range all {
+		if f.given || f.fromArg {
+			configured[f.key] = true
+		}
+	}
+	for _, f := range all {
+		if !configured[f.key] {
+			continue
+		}
+		if f.given || f.deflt {
+			c.R.OK(rule, f.key+"@"+f.fn, f.pos, "assigned the option's own argument (or a literal default)")
+		} else {
+			c.R.Fail(rule, f.key+"@"+f.fn, f.pos, "a configured list is replaced by a computed one ("+f.term+") before the service sees it: entries can be dropped, merged or reordered without any error", "parameters.<list> = the option's argument, as given", nil)
 		}
 	}
 	c.R.Floor(rule, "stores into list-typed fields of service parameters", n, 5)
